@@ -165,7 +165,7 @@ def entry_classify(res, case):
     return ['entry:' + res.status] if res.status in ('undef', 'svc', 'smc', 'hyptrap', 'abort') else []
 
 
-ENTRY_PLAN = e1prop.Plan('C11', ENTRY_ROWS, cfgs=('v6', 'v6-nosec', 'v7-virt', 'v7-virt', 'v7'), classify=entry_classify,
+ENTRY_PLAN = e1prop.Plan('C11', ENTRY_ROWS, cfgs=('v6', 'v6-nosec', 'v7-virt', 'v7-virt', 'v7', 'v7-virt-hsr', 'v7-virt-hsr2'), classify=entry_classify,
                          nontrivial=lambda res: res.status in ('undef', 'svc', 'smc', 'hyptrap', 'abort'), tweak_case=entry_tweak,
                          case_kw=lambda rng, row: {'mpu': False, 'mmu': False, 'code_base': rng.choice((0x8000, 0x8000, 0xFFFFFF00, 0x7FFFFF80))}, hooked=(False, True))
 
